@@ -83,10 +83,13 @@ type Case struct {
 	CancelR   int         `json:"cancel_receiver_ms"`
 	KeepOut   string      `json:"keep_out"` // reuse this out dir (not removed)
 	Shrink    string      `json:"shrink"`   // rel path of a source file to truncate after the scan
+	ShrinkBy  int64       `json:"shrink_by"` // bytes to cut off (0 = half the file)
 	Vanish    string      `json:"vanish"`   // rel path of a source file to delete after the scan
 	Obstruct  string      `json:"obstruct"` // rel path in the out dir to pre-create as a directory
 	CloseLike bool        `json:"close_like_app"` // each side closes its conn (code 0) when its function returns, as the app does
 	SrcDir    string      `json:"src_dir"`        // use this existing source tree (not created, not removed)
+	Tail      uint32      `json:"tail"`           // sender Options.ResumeVerifyTail
+	Verify    string      `json:"verify"`         // sender Options.ResumeVerify ("" = last)
 	// crash-point runs (executed in a child process)
 	KillPoint  string `json:"kill_point"`   // verifhook point name
 	KillAt     int    `json:"kill_at"`      // SIGKILL self at the k-th hit (1-based); 0 = never
@@ -559,7 +562,14 @@ func runCase(c Case) (res Result) {
 	if c.Shrink != "" {
 		p := filepath.Join(src, filepath.FromSlash(c.Shrink))
 		if st, err := os.Stat(p); err == nil {
-			os.Truncate(p, st.Size()/2)
+			to := st.Size() / 2
+			if c.ShrinkBy > 0 {
+				to = st.Size() - c.ShrinkBy
+				if to < 0 {
+					to = 0
+				}
+			}
+			os.Truncate(p, to)
 		}
 	}
 	if c.Vanish != "" {
@@ -583,7 +593,7 @@ func runCase(c Case) (res Result) {
 	if streams < 1 {
 		streams = 1
 	}
-	sopts := transfer.Options{ChunkSize: chunk, ParallelFiles: streams, Resume: true}
+	sopts := transfer.Options{ChunkSize: chunk, ParallelFiles: streams, Resume: true, ResumeVerifyTail: c.Tail, ResumeVerify: c.Verify, HashAlg: "crc32c"}
 	sopts.ParamSource = func() transfer.RuntimeParams { return transfer.RuntimeParams{ChunkSize: chunk, ParallelFiles: streams} }
 	ropts := transfer.Options{Resume: c.Resume, NoRootDir: c.NoRoot, HashAlg: "crc32c", ParallelFiles: streams}
 
